@@ -538,3 +538,11 @@ VARIANTS += [
  dict(name='map-filled-by-helper-caller-passes-nil-map', expect='flagged(map-update/)', edits=_ATTR_HELPER + [(_PK, '\tattrKeyValue := make(map[string]string)\n', '\tvar attrKeyValue map[string]string\n')],
       why='the caller declares the map without making it: the update in the helper panics'),
 ]
+
+# ---- nil test of the verifier fields computed by a predicate helper (cross-sweep of C05's variants) ----
+VARIANTS += [
+ dict(name='benign-verifier-field-nil-check-by-predicate-helper', expect='silent', edits=[('verifier/verifier.go', '\tif v.revocationCodeSigningValidator == nil && v.revocationClient == nil {\n', '\tif !v.canCheckRevocation() {\n'), ('verifier/verifier.go', 'func processPluginResponse(', 'func (recv *verifier) canCheckRevocation() bool {\n\treturn recv.revocationCodeSigningValidator != nil || recv.revocationClient != nil\n}\n\nfunc processPluginResponse(')]),
+ dict(name='benign-verifier-field-nil-check-by-negative-predicate-helper', expect='silent', edits=[('verifier/verifier.go', '\tif v.revocationCodeSigningValidator == nil && v.revocationClient == nil {\n', '\tif v.canCheckRevocation() {\n'), ('verifier/verifier.go', 'func processPluginResponse(', 'func (recv *verifier) canCheckRevocation() bool {\n\tif recv.revocationCodeSigningValidator != nil {\n\t\treturn false\n\t}\n\treturn recv.revocationClient == nil\n}\n\nfunc processPluginResponse(')]),
+ dict(name='verifier-field-predicate-helper-looks-at-one-field-only', expect='flagged(nilable/verifier-field)', edits=[('verifier/verifier.go', '\tif v.revocationCodeSigningValidator == nil && v.revocationClient == nil {\n', '\tif !v.canCheckRevocation() {\n'), ('verifier/verifier.go', 'func processPluginResponse(', 'func (recv *verifier) canCheckRevocation() bool {\n\treturn recv.revocationCodeSigningValidator != nil || recv.revocationTimestampingValidator != nil\n}\n\nfunc processPluginResponse(')]),
+ dict(name='verifier-field-predicate-helper-result-inverted', expect='flagged(nilable/verifier-field)', edits=[('verifier/verifier.go', '\tif v.revocationCodeSigningValidator == nil && v.revocationClient == nil {\n', '\tif v.canCheckRevocation() {\n'), ('verifier/verifier.go', 'func processPluginResponse(', 'func (recv *verifier) canCheckRevocation() bool {\n\treturn recv.revocationCodeSigningValidator != nil || recv.revocationClient != nil\n}\n\nfunc processPluginResponse(')]),
+]
